@@ -706,6 +706,50 @@ def esl_vec_LReverse_inplace (vec : Array α) (n : Int) : Option (Array α) := d
     else pure vec
   pure vec
 
+/-- `esl_vec_DCompare` (esl_vectorops.c:969) -/
+def esl_vec_DCompare [VCmp α] (vec1 : Array α) (vec2 : Array α) (n : Int) (tol : α) : Option (Int) := do
+  let t3 ← loopAny 0 n fun i => do
+      let t1 ← rd vec1 i
+      let t2 ← rd vec2 i
+      pure (decide (compareOldStatus t1 t2 tol = 1))
+  if t3 then
+    pure (1 : Int)
+  else
+    pure (0 : Int)
+
+/-- `esl_vec_FCompare` (esl_vectorops.c:976) -/
+def esl_vec_FCompare [VCmp α] (vec1 : Array α) (vec2 : Array α) (n : Int) (tol : α) : Option (Int) := do
+  let t3 ← loopAny 0 n fun i => do
+      let t1 ← rd vec1 i
+      let t2 ← rd vec2 i
+      pure (decide (compareOldStatus t1 t2 tol = 1))
+  if t3 then
+    pure (1 : Int)
+  else
+    pure (0 : Int)
+
+/-- `esl_vec_ICompare` (esl_vectorops.c:983) -/
+def esl_vec_ICompare (vec1 : Array α) (vec2 : Array α) (n : Int) : Option (Int) := do
+  let t3 ← loopAny 0 n fun i => do
+      let t1 ← rd vec1 i
+      let t2 ← rd vec2 i
+      pure (!(CElem.eq t1 t2))
+  if t3 then
+    pure (1 : Int)
+  else
+    pure (0 : Int)
+
+/-- `esl_vec_LCompare` (esl_vectorops.c:990) -/
+def esl_vec_LCompare (vec1 : Array α) (vec2 : Array α) (n : Int) : Option (Int) := do
+  let t3 ← loopAny 0 n fun i => do
+      let t1 ← rd vec1 i
+      let t2 ← rd vec2 i
+      pure (!(CElem.eq t1 t2))
+  if t3 then
+    pure (1 : Int)
+  else
+    pure (0 : Int)
+
 /-- `esl_vec_CReverse` (esl_vectorops.c:649) -/
 def esl_vec_CReverse (vec : Array α) (rev : Array α) (n : Int) : Option (Array α) := do
   let rev ← loop 0 (Int.tdiv n 2) rev fun i rev => do
@@ -960,6 +1004,21 @@ def esl_mat_IMax (A : Array α) (M : Int) (N : Int) : Option (α) := do
   let t1 ← esl_vec_IMax A (M * N)
   pure t1
 
+/-- `esl_mat_DCompare` (esl_matrixops.c:401) -/
+def esl_mat_DCompare [VCmp α] (A : Array α) (B : Array α) (M : Int) (N : Int) (tol : α) : Option (Int) := do
+  let t1 ← esl_vec_DCompare A B (M * N) tol
+  pure t1
+
+/-- `esl_mat_FCompare` (esl_matrixops.c:406) -/
+def esl_mat_FCompare [VCmp α] (A : Array α) (B : Array α) (M : Int) (N : Int) (tol : α) : Option (Int) := do
+  let t1 ← esl_vec_FCompare A B (M * N) tol
+  pure t1
+
+/-- `esl_mat_ICompare` (esl_matrixops.c:411) -/
+def esl_mat_ICompare (A : Array α) (B : Array α) (M : Int) (N : Int) : Option (Int) := do
+  let t1 ← esl_vec_ICompare A B (M * N)
+  pure t1
+
 /-- name → translated function; arguments grouped by kind in parameter order (arrays, indices, elements);
     outer `none` = unknown name / wrong arity, inner `none` = the routine faults -/
 def dispatch (name : String) (A : List (Array α)) (I : List Int) (E : List α) : Option (Option (Res α)) :=
@@ -1024,6 +1083,8 @@ def dispatch (name : String) (A : List (Array α)) (I : List Int) (E : List α) 
   | "esl_vec_IReverse_inplace", [vec], [n], [] => some ((esl_vec_IReverse_inplace vec n).map fun r => ⟨none, none, [r]⟩)
   | "esl_vec_LReverse", [vec, rev], [n], [] => some ((esl_vec_LReverse vec rev n).map fun r => ⟨none, none, [r]⟩)
   | "esl_vec_LReverse_inplace", [vec], [n], [] => some ((esl_vec_LReverse_inplace vec n).map fun r => ⟨none, none, [r]⟩)
+  | "esl_vec_ICompare", [vec1, vec2], [n], [] => some ((esl_vec_ICompare vec1 vec2 n).map fun r => ⟨none, some r, []⟩)
+  | "esl_vec_LCompare", [vec1, vec2], [n], [] => some ((esl_vec_LCompare vec1 vec2 n).map fun r => ⟨none, some r, []⟩)
   | "esl_vec_CReverse", [vec, rev], [n], [] => some ((esl_vec_CReverse vec rev n).map fun r => ⟨none, none, [r]⟩)
   | "esl_vec_CReverse_inplace", [vec], [n], [] => some ((esl_vec_CReverse_inplace vec n).map fun r => ⟨none, none, [r]⟩)
   | "esl_vec_WCopy", [src, dest], [n], [] => some ((esl_vec_WCopy src n dest).map fun r => ⟨none, none, [r]⟩)
@@ -1058,6 +1119,7 @@ def dispatch (name : String) (A : List (Array α)) (I : List Int) (E : List α) 
   | "esl_mat_DMax", [A], [M, N], [] => some ((esl_mat_DMax A M N).map fun r => ⟨some r, none, []⟩)
   | "esl_mat_FMax", [A], [M, N], [] => some ((esl_mat_FMax A M N).map fun r => ⟨some r, none, []⟩)
   | "esl_mat_IMax", [A], [M, N], [] => some ((esl_mat_IMax A M N).map fun r => ⟨some r, none, []⟩)
+  | "esl_mat_ICompare", [A, B], [M, N], [] => some ((esl_mat_ICompare A B M N).map fun r => ⟨none, some r, []⟩)
   | _, _, _, _ => none
 
 end EaselModel.Vec.Gen
